@@ -25,6 +25,8 @@ FUNCTIONS = {}
 
 
 def _get_type_id(obj):
+    if obj is sh.EMPTY:  # A blank cell is no text: it never matches.
+        return 3
     if isinstance(obj, (bool, np.bool_)):
         return 2
     elif isinstance(obj, (str, np.str_)) and not isinstance(obj, XlError):
